@@ -136,7 +136,7 @@ func checkRequest(t kit.Transfer, run kit.Running, call world.Call) error {
 func runC05Request(l *world.Lab, c caseC05, rec *kit.Recorder) error {
 	w := l.W
 	t := c.Transfer
-	p, err := kit.BuildPacket(w.Cdc, t, true)
+	p, err := kit.BuildPacket(w.Cdc, t, false)
 	if err != nil {
 		return fmt.Errorf("harness: %w", err)
 	}
@@ -198,6 +198,36 @@ func genC05Transfer(t *rapid.T, l *world.Lab) kit.Transfer {
 	tr.Route = kit.GenRoute(t, w, running, kit.RouteOpt{EnvValid: kit.Chance(t, "envvalid", 85), InternalClasses: []string{"plain", "plain-upper", "fresh"}})
 	if tr.Route.Kind == "cctp" && amt.Cmp(big.NewInt(world.BurnLimit)) > 0 && running == world.Uusdc {
 		tr.Amount, tr.Actions = fmt.Sprint(world.BurnLimit), nil
+	}
+	if kit.Chance(t, "odd-bytes", 20) {
+		// attribute values the constructors would refuse (other byte lengths): whatever the
+		// chain does with them, a request that reaches a bridge must carry them unaltered
+		ext := func(b []byte, l string) []byte {
+			n := pick(t, l, []int{33, 40, 64, 31, 20, 0})
+			out := make([]byte, n)
+			copy(out, b)
+			for i := len(b); i < n; i++ {
+				out[i] = byte(0xA0 + i%7)
+			}
+			return out
+		}
+		switch tr.Route.Kind {
+		case "cctp":
+			if kit.Chance(t, "odd/mint", 50) {
+				tr.Route.MintRecipient = ext(tr.Route.MintRecipient, "odd/mint/len")
+			} else {
+				tr.Route.DestCaller = ext(tr.Route.DestCaller, "odd/caller/len")
+			}
+		case "hyp":
+			switch pick(t, "odd/hyp", []string{"recipient", "token", "hook"}) {
+			case "recipient":
+				tr.Route.Recipient = ext(tr.Route.Recipient, "odd/rcpt/len")
+			case "token":
+				tr.Route.TokenID = ext(tr.Route.TokenID, "odd/token/len")
+			default:
+				tr.Route.HookID = ext(w.HypHook, "odd/hook/len")
+			}
+		}
 	}
 	return tr
 }
